@@ -561,8 +561,12 @@ pub fn c29_sat_charms() {
   }
 }
 
-/// palindrome: decimal digits read the same both ways (spec: explicit digit array).
+/// palindrome: decimal digits read the same both ways (spec: explicit digit array).  Since round 3
+/// the deciding contract is the Verus unit sat_palindrome (unbounded, spec: n equals its digit
+/// reversal); this harness is its counterexample finder and a bounded cross-check that the two
+/// formulations of "palindrome" agree (tier cex: run only after a Verus obligation failed).
 //# props: C29
+//# tier: cex
 //# kind: bounded(sats below 10^6: 6 decimal digits; 64-bit digit reversal is beyond CBMC for the full range)
 //# fns: Sat::palindrome
 #[cfg_attr(kani, kani::proof)]
